@@ -118,6 +118,7 @@ type podState struct {
 	exists  bool
 	sb      int
 	sbs     []string // sandboxes of the current pod (uid) for which an ADD was invoked
+	downUID string   // uid for which the runtime has begun tearing the pod down
 	sbLive  bool
 	exited  bool            // the pod object remains but its sandbox has exited (phase Succeeded)
 	v4, v6  string          // what the pod reports (status)
@@ -129,7 +130,9 @@ type podState struct {
 type rtStamps struct {
 	ini, del         time.Time
 	present, delLost bool
-	lost             int // times a stale copy undid the entry or its teardown stamp
+	lost             int       // times a stale copy undid the entry or its teardown stamp
+	tied             bool      // the runtime object shows "initial" and "deleted" with the same stamp
+	untiedAt         time.Time // when a later "deleted" stamp ended such a tie
 }
 
 type World struct {
